@@ -95,7 +95,8 @@ func getStoreRoles(P *Program) (*storeRoles, []string) {
 			}
 		}
 	}
-	// expiry predicate: bool method of the memory store taking a *session
+	// expiry predicate: bool method of the memory store taking a *session, or a bool function/method of
+	// the package taking a *session (as receiver or parameter) and a time.Time that the store's methods call
 	for _, fn := range sr.memMethods {
 		res := fn.Signature.Results()
 		if res.Len() != 1 || !isBool(res.At(0).Type()) {
@@ -107,8 +108,45 @@ func getStoreRoles(P *Program) (*storeRoles, []string) {
 			}
 		}
 	}
+	if sr.Expiry == nil && sr.SessionType != nil {
+		var cands []*ssa.Function
+		for _, fn := range P.Funcs {
+			if fn.Pkg == nil || fn.Pkg.Pkg.Path() != pkgOIDC || fn.Parent() != nil {
+				continue
+			}
+			res := fn.Signature.Results()
+			if res.Len() != 1 || !isBool(res.At(0).Type()) {
+				continue
+			}
+			hasS, hasT := false, false
+			for _, p := range fn.Params {
+				if types.Identical(derefType(p.Type()), sr.SessionType) {
+					hasS = true
+				}
+				if typeID(p.Type()) == "time.Time" {
+					hasT = true
+				}
+			}
+			if !hasS || !hasT {
+				continue
+			}
+			called := false
+			for _, m := range sr.memMethods {
+				if len(callsToFn(m, fn)) > 0 {
+					called = true
+				}
+			}
+			if called {
+				cands = append(cands, fn)
+			}
+		}
+		if len(cands) == 1 {
+			sr.Expiry = cands[0]
+		}
+	}
+	bindPredicateParams(P, sr.Expiry)
 	if sr.Expiry == nil {
-		missing = append(missing, "memory expiry predicate (bool method taking a *session)")
+		missing = append(missing, "memory expiry predicate (bool function of a *session and a time)")
 	}
 	for _, fn := range sr.redisMethods {
 		if len(redisCalls(fn, "ExpireAt")) > 0 {
@@ -140,10 +178,63 @@ func redisCalls(fn *ssa.Function, name string) []ssa.CallInstruction {
 }
 
 func fieldNameOfLoad(v ssa.Value) string {
-	if _, f, ok := fieldLoad(stripConv(v)); ok && f != nil {
+	v = stripConv(v)
+	if _, f, ok := fieldLoad(v); ok && f != nil {
 		return f.Name()
 	}
+	if p, ok := v.(*ssa.Parameter); ok {
+		return c10ParamField[p]
+	}
 	return ""
+}
+
+// c10ParamField: parameters of the expiry predicate that receive, at every call site, the load of one
+// and the same field of the memory store (a predicate written as a method of the session that takes
+// the two timeouts as arguments). Such a parameter stands for that field.
+var c10ParamField = map[*ssa.Parameter]string{}
+
+func bindPredicateParams(P *Program, exp *ssa.Function) {
+	c10ParamField = map[*ssa.Parameter]string{}
+	if exp == nil {
+		return
+	}
+	sites := callsToFn2(P, exp)
+	if len(sites) == 0 {
+		return
+	}
+	for i, p := range exp.Params {
+		if typeID(p.Type()) != "time.Duration" {
+			continue
+		}
+		name := ""
+		ok := true
+		for _, cc := range sites {
+			if i >= len(cc.Common().Args) {
+				ok = false
+				break
+			}
+			n := ""
+			if _, f, isL := fieldLoad(stripConv(cc.Common().Args[i])); isL && f != nil {
+				n = f.Name()
+			}
+			if n == "" || (name != "" && n != name) {
+				ok = false
+				break
+			}
+			name = n
+		}
+		if ok && name != "" {
+			c10ParamField[p] = name
+		}
+	}
+}
+
+func callsToFn2(P *Program, callee *ssa.Function) []ssa.CallInstruction {
+	var out []ssa.CallInstruction
+	for _, fn := range P.Funcs {
+		out = append(out, callsToFn(fn, callee)...)
+	}
+	return out
 }
 
 // depFields: names of struct fields (of the given owner type ids) loaded anywhere in the data
@@ -191,6 +282,11 @@ func c10R1(c *Check, sr *storeRoles) {
 					fields[f.Name()] = true
 				}
 			}
+		}
+	}
+	for _, p := range exp.Params {
+		if n := c10ParamField[p]; n != "" && len(*p.Referrers()) > 0 {
+			fields[n] = true
 		}
 	}
 	need := []string{"absoluteSessionTimeout", "idleSessionTimeout", "added", "accessed"}
